@@ -41,7 +41,7 @@ pub fn line_truth(r: &Rendered, tr: &Truth) -> LineTruth {
         }
         match tr.extents[i] {
             Extent::Whole(_) => {
-                for f in fate.iter_mut().take(e.close_line + 1).skip(e.open_line) {
+                for f in fate.iter_mut().take(e.close_line + 1).skip(e.open_first_line) {
                     if *f == Fate::Kept {
                         *f = Fate::Removed { seam: 4 * i };
                     }
@@ -52,7 +52,7 @@ pub fn line_truth(r: &Rendered, tr: &Truth) -> LineTruth {
                     continue; // inside a removed region
                 }
                 unwrapped.push(i);
-                let t = lead(&text[e.open_line]);
+                let t = lead(&text[e.open_first_line]);
                 let first_inner = &text[e.open_line + 2.min(e.close_line - e.open_line)];
                 let has_inner = e.close_line - e.open_line - 1 > 2;
                 let f = if has_inner { lead(first_inner) } else { 0 };
@@ -63,7 +63,7 @@ pub fn line_truth(r: &Rendered, tr: &Truth) -> LineTruth {
                 if t < bound[e.open_line] {
                     ambiguous = true;
                 }
-                for l in [e.open_line, e.open_line + 1] {
+                for l in e.open_first_line..=e.open_line + 1 {
                     if fate[l] == Fate::Kept {
                         fate[l] = Fate::Removed { seam: 4 * i + 1 };
                     }
@@ -113,7 +113,7 @@ pub fn kf1_signature(r: &Rendered, tr: &Truth) -> bool {
     if !(r.src.starts_with(' ') || r.src.starts_with('\t')) {
         return false;
     }
-    if !r.elems.iter().enumerate().any(|(i, e)| e.open_line == 0 && tr.decisions[i] == Decision::Ready && matches!(tr.extents[i], Extent::Whole(_) | Extent::Parts(..))) {
+    if !r.elems.iter().enumerate().any(|(i, e)| e.open_first_line == 0 && tr.decisions[i] == Decision::Ready && matches!(tr.extents[i], Extent::Whole(_) | Extent::Parts(..))) {
         return false;
     }
     let b = r.src.as_bytes();
